@@ -172,6 +172,9 @@ func extraAlphabet() []Choice {
 		{Label: "evidence(k0,old)", Block: chain.Block{Evidence: []chain.Evidence{{Val: 0, HeightAgo: 1, Age: 121 * time.Second}}}},
 		{Label: "evidence(k0)+evidence(k1)", Block: chain.Block{Evidence: []chain.Evidence{{Val: 0, HeightAgo: 1, Age: time.Second}, {Val: 1, HeightAgo: 1, Age: time.Second}}}},
 		{Label: "prop=unknown", Block: chain.Block{Proposer: -1}},
+		// slashes whose token amount truncates to zero
+		evB("burn(k0,0)", chain.Event{Kind: "burn", Who: 0, Sev: "0"}),
+		evB("burn(k0,0.000000000000000001)", chain.Event{Kind: "burn", Who: 0, Sev: "0.000000000000000001"}),
 		{Label: "dt=3s-1ns", Block: chain.Block{DT: 3*time.Second - time.Nanosecond}},
 		{Label: "dt=2s", Block: chain.Block{DT: 2 * time.Second}},
 	}
@@ -204,6 +207,8 @@ func setAlphabetU(u int64) []Choice {
 		evB("burn(k1,0.4)", chain.Event{Kind: "burn", Who: 1, Sev: "0.4"}),
 		evB("burn(k2,0.3)", chain.Event{Kind: "burn", Who: 2, Sev: "0.3"}),
 		multiB("[burn(k0,0.5),burn(k1,0.5)]", chain.Event{Kind: "burn", Who: 0, Sev: "0.5"}, chain.Event{Kind: "burn", Who: 1, Sev: "0.5"}),
+		evB("burn(k1,0) nothing to remove", chain.Event{Kind: "burn", Who: 1, Sev: "0"}),
+		evB("burn(k2,0.000000000000000001) dust", chain.Event{Kind: "burn", Who: 2, Sev: "0.000000000000000001"}),
 		{Label: "dt=3s", Block: chain.Block{DT: 3 * time.Second}},
 		txB("change(MaxValidators=1)", chain.TxSpec{Msg: "change_param", From: 4, Key: "pos/MaxValidators", Val: `"1"`}),
 		txB("change(MaxValidators=3)", chain.TxSpec{Msg: "change_param", From: 4, Key: "pos/MaxValidators", Val: `"3"`}),
@@ -243,6 +248,14 @@ func rewardAlphabet() []Choice {
 		evB("award(k3,0)", chain.Event{Kind: "award", Who: 3, Amount: 0}),
 		txB("send(k3->pos module account,1000)", chain.TxSpec{Msg: "send_module", From: 3, Key: "pos", Amount: 1000}),
 		txB("send(k3->fee collector,1000)", chain.TxSpec{Msg: "send_module", From: 3, Key: "fee_collector", Amount: 1000}),
+		// a header without proposer address: nobody is the proposer of that block
+		Choice{Label: "prop=empty + send", Block: chain.Block{Proposer: -2, Events: []chain.Event{txE(chain.TxSpec{Msg: "send", From: 3, To: 2, Amount: 1})}}},
+		{Label: "prop=empty", Block: chain.Block{Proposer: -2}},
+		// recipients whose address is not 20 bytes long (19 and 23 bytes; two 23/24-byte addresses that
+		// share their first 20 bytes)
+		evB("award(19-byte address,7)", chain.Event{Kind: "award", Who: 2000 + 3, Amount: 7}),
+		multiB("[award(23-byte,7),award(24-byte same first 20,11)]", chain.Event{Kind: "award", Who: 6000 + 3, Amount: 7}, chain.Event{Kind: "award", Who: 7000 + 3, Amount: 11}),
+		multiB("[award(k3,5),award(23-byte extension of k3,9)]", chain.Event{Kind: "award", Who: 3, Amount: 5}, chain.Event{Kind: "award", Who: 6000 + 3, Amount: 9}),
 	}
 }
 
